@@ -39,6 +39,7 @@ def handle (line : String) : String :=
   | ["SKILL", kind, fuel, objs] => StrainsWire.handleSKILL kind fuel objs
   | ["SECT", l, fuel, times] => StrainsWire.handleSECT l fuel times
   | "GS" :: mode :: args => GenState.handleGS mode args
+  | "GSQ" :: mode :: args => GenState.handleGSQ mode args
   | _ => "bad-op"
 
 partial def loop (h : IO.FS.Stream) (out : IO.FS.Stream) : IO Unit := do
